@@ -14,7 +14,7 @@ def run(check, pool, Task):
     check.stubs.append('math.sqrt -> uninterpreted function sqrt_uf (sqrt(+inf) = +inf, NaN propagates)')
     check.assumptions += ['rings are stored closed (first vertex repeated) for the shoelace identity']
     tasks = []
-    for rs in ([0], [1], [2], [3], [4], [6], [3, 3], [4, 3, 3], [2, 3]) + (([8], [5, 4], [3, 3, 3, 3]) if thorough else ()):
+    for rs in ([0], [1], [2], [3], [4], [6], [3, 3], [4, 3, 3], [2, 3], [1, 3], [3, 1], [3, 0, 3]) + (([8], [5, 4], [3, 3, 3, 3]) if thorough else ()):
         tasks.append(Task(f'kernel:compute_area rings={rs} (== shoelace/2, reversal negates, translation invariant)', c14.q_area, (rs,), {'seed': check.seed},
                           timeout=cap, meta={'kind': 'area', 'rs': rs}))
     for ps in ([1], [2], [3], [4], [2, 2], [3, 1, 2]) + (([6], [3, 3, 2]) if thorough else ()):
